@@ -229,7 +229,7 @@ def realops_guard():
 
 
 # ------------------------------------------------------------------ lane reductions (Model/VecOps.v)
-VECOPS_EXPECTED_SHA = "e4565e9009716bd6"
+VECOPS_EXPECTED_SHA = "d41c6bf1b049dae3"
 
 
 def vecops_guard():
